@@ -1,5 +1,7 @@
 import Qhttp.Props.C07
 import Qhttp.Props.C16
+import Qhttp.Props.C14
+import Qhttp.Lemmas.C08Range
 /-
   C08 — file responses are self-consistent full or partial content.
 -/
@@ -50,5 +52,200 @@ def holds (fe : FsEnv) (path : Bytes) (rangeHdr : Bytes) (complete : Bool) (obs 
      | none => false
      | some m => one (Http.valuesOf Sock.CONTENT_LENGTH m.headers) == some (natDigits m.body.length))
   | .notFound => true
+
+/-! ## Theorems -/
+
+open C08L
+
+theorem startsWith_ne_nil {hdr : Bytes} (h : startsWith BYTES_EQ hdr = true) : hdr.isEmpty = false := by
+  cases hdr with
+  | nil => exact absurd h (by decide)
+  | cons c cs => rfl
+
+/-- `processFile`'s derivation, with `split(',')[0]` written as "everything before the first comma" -/
+theorem requestedRange_eq (hdr : Bytes) (size : Nat) :
+    requestedRange hdr size =
+      if startsWith BYTES_EQ hdr then Range.ofString (firstElem 44 (hdr.drop 6)) size
+      else Range.invalid := by
+  unfold requestedRange
+  by_cases hs : startsWith BYTES_EQ hdr = true
+  · rw [if_pos (by simp [hs, startsWith_ne_nil hs]), if_pos hs]
+    obtain ⟨rest, hr⟩ := splitChar_first 44 (hdr.drop 6)
+    rw [hr]
+  · rw [if_neg (by simp [hs]), if_neg hs]
+
+theorem specRange_eq (hdr : Bytes) (size : Nat) :
+    specRange hdr size =
+      if !startsWith BYTES_EQ hdr then none else
+      match C16.specText (firstElem 44 (hdr.drop 6)) with
+      | none => none
+      | some (f, t) =>
+        if !C16.specValid f t size then none else
+        if f < 0 then some ((size : Int) + f |>.toNat, size - 1)
+        else if t < 0 then some (f.toNat, size - 1)
+        else some (f.toNat, t.toNat) := rfl
+
+/-- 5. the Range object `processFile` builds is valid exactly when the property's own reading of
+    the header yields a range, and then its absolute bounds are that range, with
+    `0 ≤ from ≤ to < size` and `length = to − from + 1` (every header, every size). -/
+theorem range_eq_spec (hdr : Bytes) (size : Nat) :
+    (requestedRange hdr size).isValid = (specRange hdr size).isSome ∧
+    ((requestedRange hdr size).isValid = true →
+      specRange hdr size =
+        some ((requestedRange hdr size).absFrom.toNat, (requestedRange hdr size).absTo.toNat) ∧
+      0 ≤ (requestedRange hdr size).absFrom ∧
+      (requestedRange hdr size).absFrom ≤ (requestedRange hdr size).absTo ∧
+      (requestedRange hdr size).absTo < size ∧
+      (requestedRange hdr size).length =
+        (requestedRange hdr size).absTo - (requestedRange hdr size).absFrom + 1) := by
+  rw [requestedRange_eq, specRange_eq]
+  by_cases hs : startsWith BYTES_EQ hdr = true
+  · rw [if_pos hs, if_neg (by simp [hs])]
+    have hvt := C16.valid_iff_text (firstElem 44 (hdr.drop 6)) size
+    cases hst : C16.specText (firstElem 44 (hdr.drop 6)) with
+    | none =>
+      rw [hst] at hvt
+      simp only [] at hvt ⊢
+      rw [hvt]; simp
+    | some p =>
+      obtain ⟨f, t⟩ := p
+      rw [hst] at hvt
+      simp only [] at hvt ⊢
+      have hr := ofString_of_specText (size : Int) hst
+      have hwf := specText_wf hst
+      rw [hvt]
+      cases hv : C16.specValid f t size with
+      | false => simp
+      | true =>
+        simp only [Bool.not_true, Bool.false_eq_true, if_false]
+        have hvalid : (Range.ofString (firstElem 44 (hdr.drop 6)) size).isValid = true := by
+          rw [hvt]; exact hv
+        obtain ⟨h0, h1, h2, h3, _⟩ :=
+          C16.valid_known _ (C16.wf_ofString _ _) hvalid (by rw [hr]; exact Int.natCast_nonneg size)
+        refine ⟨?_, fun _ => ⟨?_, h0, h1, by rw [hr] at h2 ⊢; exact h2, h3⟩⟩
+        · split
+          · rfl
+          · split <;> rfl
+        · obtain ⟨hfrom, hto, hsz, hlt⟩ := abs_of_valid f t size hwf hv
+          rw [hr, hfrom, hto]
+          by_cases hf : f < 0
+          · have := hsz hf
+            simp only [hf, if_true]
+            congr 2
+            omega
+          · simp only [hf, if_false]
+            by_cases ht : t < 0
+            · simp only [ht, if_true]
+              have := hlt (by omega)
+              congr 2
+              omega
+            · simp only [ht, if_false]
+  · rw [if_neg hs, if_pos (by simp [hs])]
+    simp [C16.invalid_isValid]
+
+/-- `requestedRange` stores the file size -/
+theorem requestedRange_valid_size {hdr : Bytes} {size : Nat}
+    (h : (requestedRange hdr size).isValid = true) : (requestedRange hdr size).size = size := by
+  have h' := h
+  rw [requestedRange_eq] at h ⊢
+  by_cases hs : startsWith BYTES_EQ hdr = true
+  · rw [if_pos hs] at h ⊢
+    rw [C16.valid_iff_text] at h
+    cases hst : C16.specText (firstElem 44 (hdr.drop 6)) with
+    | none => rw [hst] at h; cases h
+    | some p => obtain ⟨f, t⟩ := p; rw [ofString_of_specText _ hst]
+  · rw [if_neg hs] at h; exact absurd h (by decide)
+
+/-- what `plan` classifies as a file carries the range derived from the Range header and the
+    file's size -/
+theorem plan_file_range {fe : FsEnv} {path : Bytes} {hs : HeaderMap} {loc : List Bytes} {r : Range}
+    (h : plan fe path hs = .file loc r) :
+    r = requestedRange (HeaderMap.value RANGE hs) (fe.content loc).length := by
+  unfold plan at h
+  simp only [] at h
+  split at h
+  · cases h
+  · split at h
+    · cases h
+    · cases h; rfl
+
+/-- 6. shape of a file response: the API calls made from `headersParsed` and the copier
+    configuration, in terms of the property's reading `specRange` of the Range header.
+    Either no (valid first) range: `Content-Length: size`, the copier copies the whole file;
+    or the range `(a, b)`: status 206, `Content-Length: b−a+1`, `Content-Range: bytes a-b/size`,
+    and the copier is asked for exactly `file[a..b]` (`C14.wanted`). -/
+theorem file_plan_shape (fe : FsEnv) (s : Sock) (loc : List Bytes) (r : Range)
+    (hp : plan fe (s.path.drop 1) s.reqHeaders = .file loc r) :
+    match specRange (HeaderMap.value RANGE s.reqHeaders) (fe.content loc).length with
+    | none =>
+      hpOps fe s =
+        [.hdr Sock.CONTENT_LENGTH (natDigits (fe.content loc).length) true,
+         .hdr Sock.CONTENT_TYPE (fe.mime loc) true, .wh] ∧
+      copierCfg fe s = some { src := fe.content loc, block := 65536, range := none } ∧
+      C14.wanted { src := fe.content loc, block := 65536, range := none } = fe.content loc
+    | some (a, b) =>
+      a ≤ b ∧ b < (fe.content loc).length ∧
+      hpOps fe s =
+        [.status 206 none, .hdr Sock.CONTENT_LENGTH (natDigits (b - a + 1)) true,
+         .hdr CONTENT_RANGE (BYTES_SP ++ natDigits a ++ [45] ++ natDigits b ++ [47] ++
+            natDigits (fe.content loc).length) true,
+         .hdr Sock.CONTENT_TYPE (fe.mime loc) true, .wh] ∧
+      copierCfg fe s =
+        some { src := fe.content loc, block := 65536, range := some ((a : Int), (b : Int)) } ∧
+      C14.wanted { src := fe.content loc, block := 65536, range := some ((a : Int), (b : Int)) } =
+        ((fe.content loc).drop a).take (b - a + 1) := by
+  have hr := plan_file_range hp
+  obtain ⟨hiff, hval⟩ := range_eq_spec (HeaderMap.value RANGE s.reqHeaders) (fe.content loc).length
+  rw [← hr] at hiff hval
+  unfold hpOps copierCfg
+  rw [hp]
+  simp only []
+  cases hsp : specRange (HeaderMap.value RANGE s.reqHeaders) (fe.content loc).length with
+  | none =>
+    rw [hsp] at hiff
+    have hv : r.isValid = false := by simpa using hiff
+    simp only [hv, Bool.false_eq_true, if_false, List.cons_append, List.nil_append, true_and]
+    rfl
+  | some p =>
+    obtain ⟨a, b⟩ := p
+    rw [hsp] at hiff
+    have hv : r.isValid = true := by simpa using hiff
+    obtain ⟨hspec, h0, h1, h2, hlen⟩ := hval hv
+    rw [hsp] at hspec
+    simp only [Option.some.injEq, Prod.mk.injEq] at hspec
+    obtain ⟨ha, hb⟩ := hspec
+    have hsize : r.size = ((fe.content loc).length : Int) := by
+      rw [hr]; exact requestedRange_valid_size (by rw [← hr]; exact hv)
+    have hwf : C16.WF r := by
+      rw [hr, requestedRange_eq]
+      split
+      · exact C16.wf_ofString _ _
+      · exact C16.wf_invalid
+    have hcr := (C16.valid_known r hwf hv (by rw [hsize]; omega)).2.2.2.2
+    have hfa : r.absFrom = (a : Int) := by omega
+    have hfb : r.absTo = (b : Int) := by omega
+    have hab : a ≤ b := by omega
+    have hbs : b < (fe.content loc).length := by omega
+    simp only [hv, if_true, List.cons_append, List.nil_append]
+    refine ⟨hab, hbs, ?_, ?_, ?_⟩
+    · rw [hcr, hlen, hfa, hfb, hsize, intText_nat, intText_nat, intText_nat]
+      have : ((b : Int) - (a : Int) + 1) = ((b - a + 1 : Nat) : Int) := by omega
+      rw [this, intText_nat]
+      simp [List.append_assoc]
+    · rw [hfa, hfb]
+    · unfold C14.wanted
+      simp only []
+      rw [if_neg (by omega), if_neg (by omega), if_neg (by omega)]
+      simp only [Int.toNat_natCast]
+      have : b + 1 - a = b - a + 1 := by omega
+      rw [this]
+
+example : specRange (lit ['b','y','t','e','s','=','2','-','5',',','7','-']) 10 = some (2, 5) := by decide
+example : specRange (lit ['b','y','t','e','s','=','-','3']) 10 = some (7, 9) := by decide
+example : specRange (lit ['b','y','t','e','s','=','4','-']) 10 = some (4, 9) := by decide
+example : specRange (lit ['b','y','t','e','s','=','4','-','1','0']) 10 = none := by decide
+example : specRange (lit ['b','y','t','e','s','=','-','0']) 10 = none := by decide
+example : specRange (lit ['i','t','e','m','s','=','1','-','2']) 10 = none := by decide
+example : (requestedRange (lit ['b','y','t','e','s','=','2','-','5',',','7','-']) 10).isValid = true := by decide
 
 end Qhttp.C08
